@@ -191,6 +191,7 @@ void mode_run_raw(void *h, uint8_t *block); // in place, no canary copy (used fr
 void *factory_new(const uint8_t key[16], const uint8_t iv[16]);
 void *factory_make(void *f, bool enc, int type);
 void factory_free(void *f);
+void factory_loadiv(void *f, const uint8_t iv[16]); // the factory is given another IV (same buffer, new content, loadiv() called)
 // a COPY of the factory object (copy construction, if the class allows it - else NULL) that is then given another IV with
 // loadiv(); the source factory is given yet another IV afterwards. Objects made from the copy must use the copy's IV.
 void *factory_copy(void *f, const uint8_t iv_for_copy[16], const uint8_t iv_for_source_afterwards[16]);
